@@ -22,7 +22,10 @@ MANIFEST = dict(
          "evaluation of any path with any number of wildcards at any position equals 'map the remaining "
          "steps over the entries, keep the successes' and never fails after a wildcard [c14_tail_independent]; "
          "k wildcards give k list levels [c14_nesting]; `_apply_for_each` applies Assign/Delete to exactly "
-         "the entries, in order [c14_broadcast]; checker theorem c14_model_checks; per-run facts obligation "
+         "the entries, in order [c14_broadcast]; with ignore_missing=True an entry lacking the key is left "
+         "alone and the loop goes on, no PathDeleteError is ever raised [c14_ignore_skips_entry, "
+         "c14_ignore_deletes_entry, c14_ignore_never_path_delete_error, c14_ignore_missing_parent], a "
+         "`missing` factory plays no part below a wildcard [c14_missing_irrelevant]; checker theorem c14_model_checks; per-run facts obligation "
          "by `decide` on the decision shapes regenerated from /repo's AST; model tied to the code by "
          "differential execution of real glom / assign / delete calls against the compiled Lean driver "
          "(entries compared by address, heap snapshots after mutation, time budget against hangs).",
@@ -31,7 +34,7 @@ MANIFEST = dict(
          "handler the default registry picks per class (C13's subject) enters as the functions keysH / getH "
          "/ iterH / assignH of the class's MRO and two interpreter facts per class, validated on every "
          "case; default registry only; set iteration order is observed by the harness and given to the "
-         "model; assigned values are immediate values; mutation paths end in a plain segment.",
+         "model; assigned values are immediate values; an Assign(missing=) whose path fails before its first wildcard is C11's subject.",
     technique='Lean 4 well-founded definition (termination for every heap) + refinement to a breadth-first '
               'reference + facts obligation by decide + differential correspondence',
     ref='DESIGN.md §3 C14')
@@ -42,14 +45,17 @@ RULE = ('type-directed: a target is generated as a heap graph of dict / OrderedD
         'path with 0-3 wildcards (`*` / `**`) at every position among 0-3 plain segments is derived by walking '
         'the graph (mostly valid; absent keys, non-numeric indexes, `bad` names planted), spelled as dotted '
         'text, Path(...) with T.__star__() / T.__starstar__() parts, a mixture with T steps, or one T chain; '
-        '22% of the cases are Assign / Delete through the wildcards; fixed cases cover the self-containing '
+        '22% of the cases are Assign / Delete through the wildcards (final step as plain segment, T[..] or '
+        'T.attr; ignore_missing / missing= set or not), plus regular one- and two-level targets whose entries '
+        'have or LACK the final key / index / attribute in random positions (lacking ones in front), with '
+        'shared entries and entries of another kind; fixed cases cover the self-containing '
         'list, shared children, strings and sets. entries are compared by address, scalars by value; a 3 s '
         'alarm turns a hang into a reported case. non-trivial = the path has a wildcard and does not fail '
         'before it; distinct = distinct (heap, target, spelling, mutation)')
 TRUSTED = ['handler choice of the default registry per class is an environment function validated on every case '
            '(C13 proves the registry)', 'set iteration order is observed, not modelled']
 ASSUMPTIONS = ['default registry', 'PATH_STAR = True', 'assigned values are immediate values',
-               'Assign/Delete paths end in a plain (non-T) segment']
+               'Assign(missing=) whose path fails BEFORE its first wildcard is skipped (the backfill is C11)']
 
 
 # ---------------------------------------------------------------- extra target classes
@@ -328,17 +334,14 @@ def gen_case(rng, quirk_rate):
         steps = steps + [('seg', 'key', key)]
         if rng.random() < 0.6:
             val = rng.choice([jval(9), jval('v'), None, jval(True)])
-            mut = {'kind': 'assign', 'val': val}
+            mut = {'kind': 'assign', 'val': val, 'missing': rng.choice([None, None, 'dict', 'list'])}
         else:
-            mut = {'kind': 'delete'}
+            mut = {'kind': 'delete', 'ignore': rng.random() < 0.5}
     can_text = all(st[0] != 'seg' or text_ok(st[2]) for st in steps) and steps
     styles = ['path', 'mixed', 'tchain'] + (['text', 'text', 'text'] if can_text else [])
     style = rng.choice(styles)
-    if mut is not None and style in ('mixed', 'tchain'):
-        style = 'path'
+    # (the final step of a mutation path is spelled like any other: plain segment, T[...] or T.attr)
     sp = spell(rng, steps, style)
-    if mut is not None and 'parts' in sp and sp['parts']:
-        sp['parts'][-1] = {'seg': steps[-1][2]}
     return {'heap': heap, 'target': root, 'spelling': sp, 'mut': mut}
 
 
@@ -369,6 +372,10 @@ def fixed_cases():
                 'mut': {'kind': 'assign', 'val': {'i': 9}}})
     out.append({'heap': nested, 'target': {'r': 0}, 'spelling': {'text': '*.*.k'}, 'mut': {'kind': 'delete'}})
     out.append({'heap': nested, 'target': {'r': 0}, 'spelling': {'text': '**.k'}, 'mut': {'kind': 'delete'}})
+    out.append({'heap': nested, 'target': {'r': 0}, 'spelling': {'text': '**.k'},
+                'mut': {'kind': 'delete', 'ignore': True}})
+    out.append({'heap': nested, 'target': {'r': 0}, 'spelling': {'text': '*.*.k'},
+                'mut': {'kind': 'assign', 'val': {'i': 9}, 'missing': 'dict'}})
     return out
 
 
@@ -389,8 +396,101 @@ def wide_cases(rng, n):
         mut = None
         r = rng.random()
         if path.endswith(('k', '0')) and r < 0.7:
-            mut = {'kind': 'assign', 'val': jval(rng.choice([9, 'v']))} if r < 0.4 else {'kind': 'delete'}
+            mut = ({'kind': 'assign', 'val': jval(rng.choice([9, 'v'])), 'missing': rng.choice([None, 'dict'])}
+                   if r < 0.4 else {'kind': 'delete', 'ignore': rng.random() < 0.5})
         yield {'heap': heap, 'target': {'r': 0}, 'spelling': {'text': path}, 'mut': mut}
+
+
+def ragged_cases(rng, n):
+    """Assign / Delete through one or two wildcard levels (`*` / `**`) over entries of one kind (dicts,
+    attribute objects, lists) of which a random subset LACKS the final key / attribute / index — lacking
+    entries also in front of entries that have it —, now and then an entry of another kind (a tuple, a
+    scalar, a shared entry), with `ignore_missing` / `missing=` set or not, the final step spelled as a
+    plain segment, T[...] or T.attr, the whole path as text, Path(...), a mixture or one T chain"""
+    for _ in range(n):
+        heap = []
+        leaf_kind = rng.choice(['dict', 'dict', 'inst', 'list'])
+        levels = rng.choice([1, 1, 2])
+        made = []
+
+        def leaf(has):
+            a = len(heap)
+            extra = rng.choice([[], [('a', 1)], [('a', 1), ('b', 2)]])
+            if leaf_kind == 'dict':
+                ents = [[{'s': k}, {'i': v}] for k, v in extra] + ([[{'s': 'k'}, {'i': a}]] if has else [])
+                rng.shuffle(ents)
+                heap.append({'k': 'dict', 'c': rng.choice(['dict', 'dict', 'OrderedDict', 'DSub']), 'v': ents})
+            elif leaf_kind == 'inst':
+                ents = [[k, {'i': v}] for k, v in extra] + ([['k', {'i': a}]] if has else [])
+                rng.shuffle(ents)
+                heap.append({'k': 'inst', 'c': rng.choice(['Obj', 'Obj', 'Obj2']), 'v': ents})
+            else:
+                heap.append({'k': 'list', 'c': rng.choice(['list', 'list', 'SList', 'LSub']),
+                             'v': [{'i': a}] + ([{'i': a + 100}] if has else [])})
+            made.append(a)
+            return {'r': a}
+
+        def odd():
+            p = rng.random()
+            if p < 0.4:
+                return jval(rng.choice(SCALARS))
+            if p < 0.6 and made:
+                return {'r': rng.choice(made)}          # an entry shared with an earlier position
+            a = len(heap)
+            heap.append({'k': 'tuple', 'c': 'tuple', 'v': [{'i': 1}, {'i': 2}]})
+            return {'r': a}
+
+        def group(depth):
+            a = len(heap)
+            kind = rng.choice(['list', 'list', 'dict', 'tuple', 'list'])
+            cell = {'k': kind, 'c': {'list': rng.choice(['list', 'list', 'LSub']), 'dict': 'dict',
+                                     'tuple': 'tuple'}[kind], 'v': []}
+            heap.append(cell)
+            n_kids = rng.randint(2, 5) if depth == 1 else rng.randint(1, 3)
+            if depth == 1:
+                has = [rng.random() < 0.55 for _ in range(n_kids)]
+                if rng.random() < 0.7 and n_kids >= 2:
+                    # a lacking entry in front of one that has it
+                    i = rng.randrange(n_kids - 1)
+                    has[i] = False
+                    has[rng.randrange(i + 1, n_kids)] = True
+                kids_ = [leaf(x) for x in has]
+                if rng.random() < 0.2:
+                    kids_.insert(rng.randrange(len(kids_) + 1), odd())
+            else:
+                kids_ = [group(depth - 1) for _ in range(n_kids)]
+            if kind == 'dict':
+                cell['v'] = [[{'s': 'g%d' % i}, k] for i, k in enumerate(kids_)]
+            else:
+                cell['v'] = kids_
+            return {'r': a}
+
+        root = group(levels)
+        steps = []
+        if rng.random() < 0.3:
+            a = len(heap)
+            heap.append({'k': 'dict', 'c': 'dict', 'v': [[{'s': 'rows'}, root], [{'s': 'n'}, {'i': 0}]]})
+            root = {'r': a}
+            steps.append(('seg', 'key', {'s': 'rows'}))
+        wild = [('x',)] * levels
+        if rng.random() < 0.3:
+            # `**` in place of the wildcard levels (the containers on the way are entries too), or of one
+            wild = [('X',)] if rng.random() < 0.6 else [rng.choice([('x',), ('X',)]) for _ in range(levels)]
+        steps += wild
+        if leaf_kind == 'list':
+            steps.append(('seg', 'idx', rng.choice([{'i': 1}, {'i': 1}, {'i': -2}, {'s': '1'}])))
+        elif leaf_kind == 'inst':
+            steps.append(('seg', 'attr', {'s': 'k'}))
+        else:
+            steps.append(('seg', 'key', {'s': 'k'}))
+        if rng.random() < 0.55:
+            mut = {'kind': 'delete', 'ignore': rng.random() < 0.7}
+        else:
+            mut = {'kind': 'assign', 'val': jval(rng.choice([9, 'v', None])),
+                   'missing': rng.choice([None, 'dict', 'dict', 'list'])}
+        can_text = all(st[0] != 'seg' or text_ok(st[2]) for st in steps)
+        style = rng.choice(['path', 'mixed', 'mixed', 'tchain', 'tchain'] + (['text', 'text'] if can_text else []))
+        yield {'heap': heap, 'target': root, 'spelling': spell(rng, steps, style), 'mut': mut}
 
 
 def generate(rng, tier, scale, **focus):
@@ -400,6 +500,7 @@ def generate(rng, tier, scale, **focus):
     for _ in range(n):
         yield gen_case(rng, focus.get('quirk_rate', 0.0))
     yield from wide_cases(rng, (60 if tier == 'quick' else 1500) * scale)
+    yield from ragged_cases(rng, (260 if tier == 'quick' else 6000) * scale)
 
 
 def corpus():
@@ -409,6 +510,16 @@ def corpus():
         for t in ('*', '**'):
             out.append({'heap': [{'k': k, 'c': c, 'v': [{'i': 1}, {'i': 2}]}], 'target': {'r': 0},
                         'spelling': {'text': t}, 'mut': None})
+    # ignore_missing / missing= are per entry: an entry lacking the key in front of entries that have it
+    # (minimised witness of seeded change C14-s7: one try around the whole loop)
+    ragged = [{'k': 'list', 'c': 'list', 'v': [{'r': 1}, {'r': 2}, {'r': 3}]},
+              {'k': 'dict', 'c': 'dict', 'v': []},
+              {'k': 'dict', 'c': 'dict', 'v': [[{'s': 'k'}, {'i': 1}]]},
+              {'k': 'dict', 'c': 'dict', 'v': [[{'s': 'k'}, {'i': 2}], [{'s': 'a'}, {'i': 0}]]}]
+    for sp in ({'text': '*.k'}, {'text': '**.k'}, {'parts': [{'t': [['x', None], ['[', {'s': 'k'}]]}]}):
+        out.append({'heap': ragged, 'target': {'r': 0}, 'spelling': sp, 'mut': {'kind': 'delete', 'ignore': True}})
+        out.append({'heap': ragged, 'target': {'r': 0}, 'spelling': sp,
+                    'mut': {'kind': 'assign', 'val': {'i': 9}, 'missing': 'dict'}})
     p = os.path.join(os.path.dirname(os.path.dirname(os.path.dirname(os.path.abspath(__file__)))),
                      'corpus', 'C14.jsonl')
     if os.path.exists(p):
@@ -526,15 +637,16 @@ def run_impl(case):
                 err = None
                 try:
                     if mut['kind'] == 'assign':
-                        glom.assign(target, spec, dv(mut['val']))
+                        fac = {'dict': dict, 'list': list}.get(mut.get('missing'))
+                        glom.assign(target, spec, dv(mut['val']), missing=fac)
                     else:
-                        glom.delete(target, spec)
-                except PathAccessError:
+                        glom.delete(target, spec, ignore_missing=bool(mut.get('ignore')))
+                except (PathAccessError, RecursionError):
                     raise
-                except glom.GlomError as e:
+                except Exception as e:
+                    # PathAssignError / PathDeleteError / UnregisteredTarget, or what `dest[k] = v`,
+                    # `setattr`, `del dest[k]` raised outside every `except` clause of glom
                     err = exc_name(e)
-                except TypeError as e:
-                    err = 'TypeError'
                 out['impl'] = {'mutated': snapshot(), 'err': err}
         except Timeout:
             out['impl'] = 'timeout'
@@ -560,6 +672,14 @@ def nontrivial(case, verdict):
     return '-x0-X0-' not in b and not b.endswith('-pae')
 
 
+def mut_final_ok(parts):
+    """a mutation path ends in a plain segment, T[...] or T.attr"""
+    if not parts:
+        return False
+    last = parts[-1]
+    return 'seg' in last or (bool(last.get('t')) and last['t'][-1][0] in ('[', '.'))
+
+
 def shrink(case):
     base = {k: v for k, v in case.items() if not k.startswith('impl') and k != 'classes'}
     sp = case['spelling']
@@ -568,7 +688,7 @@ def shrink(case):
         for i in range(len(ps)):
             c = dict(base)
             c['spelling'] = {'parts': ps[:i] + ps[i + 1:]}
-            if case.get('mut') and (not c['spelling']['parts'] or 'seg' not in c['spelling']['parts'][-1]):
+            if case.get('mut') and not mut_final_ok(c['spelling']['parts']):
                 continue
             yield c
     else:
